@@ -36,6 +36,24 @@ TABLE = {
  "C22-1": {"breaks": "C22", "file": "src/state/constraint/store.rs",
            "what": "push_and_normalize no longer reports a redundant new constraint as dropped (no take_constraint for it)",
            "needs": "the weaker (subsumed) disequality arrives while the stronger one is stored, directly or after a later unification re-normalises it"},
+ "C04-1": {"breaks": "C04", "file": "src/state/mod.rs",
+           "what": "State::update_var_domain skips the intersection when the new domain's min/max span the stored domain",
+           "needs": "a variable that already has a non-singleton domain receives a second, non-contiguous domain (sparse, with a hole at a value of the first) whose bounds cover the first; the result then depends on which domain is posted first"},
+ "C16-1": {"breaks": "C16", "file": "src/relation/clpfd/plusfd.rs",
+           "what": "plusfd re-propagates only when narrowing bound w (not u or v)",
+           "needs": "w already a number, u and v domain variables with holes that both collapse to singletons in one pass (v from u's stale range), and no later unification or labelling in that branch"},
+ "C17-1": {"breaks": "C17", "file": "src/relation/clpfd/minusfd.rs",
+           "what": "minusfd bounds w above by umax + vmin instead of umax - vmin",
+           "needs": "a subtrahend whose domain contains negative numbers and a solution with w > umax + vmin"},
+ "C18-1": {"breaks": "C18", "file": "src/state/fd.rs",
+           "what": "is_disjoint shortcut for interval-vs-sparse pairs with an off-by-one (>= instead of >)",
+           "needs": "one interval and one sparse domain with overlapping bounds whose only common value is the interval's end while the interval's start is not in the sparse domain"},
+ "C19-1": {"breaks": "C19", "file": "src/relation/clpz/plusz.rs",
+           "what": "plusz binds its own operand self.w instead of the walked variable when u and v are ground",
+           "needs": "w previously unified with another unbound variable in the direction w == x, plusz solved in forward mode, result observed through x"},
+ "C20-1": {"breaks": "C20", "file": "src/state/substitution.rs",
+           "what": "occurs_check_compound only looks into compound fields that are syntactically variables",
+           "needs": "a variable unified with a compound that contains it at depth >= 2 below a non-variable field (x == Pair(1, Pair(2, x)))"},
 }
 for name, t in TABLE.items():
     d = os.path.join(ROOT, "seeded", name)
